@@ -3,3 +3,32 @@ from impl_rag import run_history
 
 def history(case, d):
     return run_history(case, d, want_regen=False)
+
+
+def big_first(case, d):
+    """asraggedarray whose FIRST subarray is exactly one default chunk (80 MiB) long / a Python list of
+    more than 2**20 numbers whose type is decided by its last element.  Oracle only."""
+    import os
+    import numpy as np
+    import darr
+    path = os.path.join(d, 'ra')
+    try:
+        if case['kind'] == 'exactchunk':
+            first = (np.arange(10240 * 1024, dtype='int64') % 97).astype('float64').reshape(10240, 1024)
+            second = np.full((3, 1024), 5.0)
+            ra = darr.asraggedarray(path, [first, second])
+            refs, dt = [first, second], 'float64'
+        else:
+            first = [1] * (2 ** 20 + 5) + [2.5]
+            second = [0.5, 7]
+            ra = darr.asraggedarray(path, [first, second])
+            refs, dt = [np.asarray(first), np.asarray(second, dtype='float64')], 'float64'
+        fresh = darr.RaggedArray(path)
+        ok = fresh.dtype == np.dtype(dt) and len(fresh) == 2 and fresh.size == sum(r.size for r in refs)
+        detail = '' if ok else f'dtype {fresh.dtype}, len {len(fresh)}, size {fresh.size}'
+        for k, r in enumerate(refs):
+            if ok and not (np.array_equal(fresh[k], r) and np.array_equal(ra[k], r)):
+                ok, detail = False, f'subarray {k} differs'
+        return dict(ok=bool(ok), detail=detail)
+    except Exception as e:
+        return dict(ok=False, detail=f'{type(e).__name__}: {e}'[:300])
